@@ -329,10 +329,15 @@ def parseReadReply (a : Addr) (data : Bytes) : Except Exn PyVal :=
       let isCT := a.fileType = [84] ∨ a.fileType = [67]
       if isCT ∧ a.subElement = 1 then dec ((data.drop 2).take size)
       else if isCT ∧ a.subElement = 2 then dec ((data.drop 4).take size)
+      else if a.fileType = [70] then
+        -- a float has no bits of its own: the bit of the element's first word, which is the word a bit write masks
+        match decode (.int .uint) (data.take 2) with
+        | .ok (.int i, _) => .ok (.bool (intBit i a.subElement))
+        | _ => .error .response
       else
         match dec (data.take size) with
         | .ok (.int i) => .ok (.bool (intBit i a.subElement))
-        | .ok _ => .error .response     -- `value & (1 << idx)` on a float raises TypeError -> ResponseError
+        | .ok _ => .error .response     -- `value & (1 << idx)` on a non-integer raises TypeError -> ResponseError
         | .error e => .error e
     else
       if size = 0 then .error .response else
